@@ -15,6 +15,10 @@ from .. import binding
 from ..mini import must_fire
 from .fc import (FCM, FC, FCC, dotted, own_walk, calls, call_name, resolve_ext, local_assignments, destructive_sinks)
 
+# the cache's own interface: methods the rules know by name; any other private helper of a method under analysis is inlined first
+CACHE_VOCABULARY = ("_is_in_cache", "_get_from_cache", "_remove_item_from_cache", "_cache_file_name", "_cache_file_path", "_add_to_cache",
+                    "_cache_eviction", "_get_cache_files", "_initialize_cache", "_download_from_resources", "get_cache_misses", "_size",
+                    "_worker", "parse_directive", "parse_directives", "remove", "purge", "in_cache")
 EXPLANATION = (
     "Structural rules over filecache/cache_object.py and remote_resources.py, decided from the syntax tree, per-function "
     "CFGs and the resolved call graph: (1) constructibility - no property getter reads itself, no setter re-enters "
@@ -251,7 +255,8 @@ def run(ctx):
     ctx.expect(okp, "R18.2", "FileCache._cache_file_path", "path == join(cache directory, cache file name)", f.loc(), derived=r2)
     ctx.absorb(it)
     # comment stripping only on the download URI
-    gm = p.get_method(FC, "get_cache_misses")
+    from .fc import inline_value_calls
+    gm = inline_value_calls(p, p.get_method(FC, "get_cache_misses"), keep=CACHE_VOCABULARY)      # private helpers are seen through
     cm_calls = [c for c in calls(gm.node) if call_name(c) == "CacheMiss"]
     loops = [n for n in own_walk(gm.node) if isinstance(n, ast.For)]
     loopvars = set()
@@ -371,8 +376,27 @@ def run(ctx):
     in_cache_ifs = [n for n in own_walk(gm.node) if isinstance(n, ast.If) and "_is_in_cache" in ast.unparse(n.test)
                     and not ast.unparse(n.test).startswith("not ")]
     inside = all(any(ts in [x for b in i.body for x in ast.walk(b)] for i in in_cache_ifs) for ts in true_sets)
+    if not (bool(true_sets) and inside):
+        # the same fact decided on paths instead of on nesting: in the scenario "no entry for this URI" every path through the
+        # per-URI loop body schedules a miss and none takes the hit branch
+        from .fc import scenario_paths
+
+        def absent(test, e):
+            txt = ast.unparse(test)
+            if isinstance(test, ast.Call) and call_name(test).endswith("_is_in_cache"):
+                return False
+            return None
+
+        def ev_of(c):
+            nm = call_name(c)
+            return "miss" if nm == "CacheMiss" else ("hit" if nm.endswith("_get_from_cache") else None)
+        body_loops = [lp for lp in loops if any(a in list(ast.walk(lp)) for a in appends)]
+        finals = scenario_paths(body_loops[0].body, {}, absent, ev_of) if len(body_loops) == 1 else []
+        inside = bool(finals) and all("miss" in ev_ and "hit" not in ev_ for _, ev_ in finals)
+        true_sets = true_sets or finals
     ctx.expect(bool(true_sets) and inside, "R18.4", "get_cache_misses[hit requires entry]",
-               "an entry is considered valid only inside the `_is_in_cache` branch", gm.loc())
+               "an entry is considered valid only inside the `_is_in_cache` branch (a URI without an entry is always a miss, never a hit)",
+               gm.loc())
     # (c) touch on the hit branch, before eviction
     touchers = [f for f in fc_funcs if any(k in ("Path.touch",) for _, _, k in destructive_sinks(p, f))
                 or any(resolve_ext(p, f, c) == "os.utime" for c in calls(f.node))]
